@@ -178,3 +178,16 @@ MANIFEST_TEXT["C02"] = {
   "text": "Held for every generated packet: accepted, and every accessor equalled the encoded value or the standard's default.",
   "note": "Trusted: the reference encoder (self-tested), mocks. Sweep + sampling of the property-subset space, not exhaustive over values.",
   "technique": RM + "round trip: independent MQTT 5 encoder -> client -> public accessors, boundary-value sweep + random sampling"}
+
+add("C04", "fault_enumeration",
+    "fault enumeration with a no-panic / no-wedge oracle (catch_unwind + panic hook around every poll of library futures; `call pending, unread input, no waker` and `call still pending after the transport ended` at executor quiescence; "
+    "a logical bound on transport calls per poll): (a) all byte strings up to the length bound over a 16-symbol boundary alphabet in each phase; (b,c) ~70 valid packets of every type - expected, unexpected for the phase, "
+    "client-only, acknowledgements for unknown identifiers, spliced/zero/unknown properties - whole, duplicated, every truncation, every byte perturbed, every bit flipped, remaining length rewritten incl. 5-byte encodings, stacked PRNG mutations; "
+    "(d) EOF / read error at every inbound byte offset and write error at every outbound byte offset of a canned conversation. Debug and release arithmetic. distinct = distinct (input bytes, phase) pairs.",
+    {"quick": ["checked", "fast"], "thorough": ["checked", "fast", "asan?"]},
+    {"quick": {"byte_strings": 100000, "byte_mutations": 30000, "truncations": 3000, "read_faults": 200, "write_faults": 100}, "thorough": {"byte_strings": 3000000}},
+    ["the documented assertion on brokers announcing no subscription-identifier support is exempt (its panic message is recognised and not reported)"], timeout=3400)
+MANIFEST_TEXT["C04"] = {
+  "text": "Every enumerated input / fault was delivered to a client in each phase; no panic, no stall with unread input and no call left pending after the transport ended was observed.",
+  "note": "Trusted: mocks, executor (a stall is decided in the closed world of the harness). Aborts (stack overflow, OOM) are caught as worker crashes and attributed to the running case. Infinite loops that never touch the transport would only be seen by the watchdog (inconclusive).",
+  "technique": RM + "fault enumeration / mutation of valid packets with panic capture and quiescence (wedge) detection; ASan tier for the dependencies' unsafe code"}
